@@ -109,7 +109,7 @@ def history(rng, wld, nsteps, keys):
             dupkeys.difference_update(pend_undup)
             dupkeys.update(pend_dup)
         rname = wld.new_reader_name()
-        ok, s = wld.guarded(rname, "searcher", wld.ix.searcher)
+        ok, s = wld.guarded(rname, "searcher", wld.reader_handle().searcher)
         if ok:
             wld.probe(rname, s)
             if rng.random() < 0.3:
@@ -149,7 +149,7 @@ def prelude(wld, keys):
         wld.actor(name)
         wr.commit(merge=False)
         rname = wld.new_reader_name()
-        ok, s = wld.guarded(rname, "searcher", wld.ix.searcher)
+        ok, s = wld.guarded(rname, "searcher", wld.reader_handle().searcher)
         if ok:
             wld.probe(rname, s)
             s.close()
@@ -166,7 +166,7 @@ def check(run):
     ixcommon.model_check(run, "IndexStoreMC_small.cfg" if quick else "IndexStoreMC.cfg", "IndexStoreMC")
     items = []
     for i in range(20 if quick else 200):
-        cfg = {"storage": rng.choice(["file", "ram"]), "compound": rng.random() < 0.7}
+        cfg = {"storage": rng.choice(["file", "ram"]), "compound": rng.random() < 0.7, "reopen": i % 3 == 1}
         seed = rng.randrange(1 << 30)
         w = ixdriver.IxWorld(**cfg)
         w.rich_probe = True
